@@ -2197,6 +2197,9 @@ DFSDIgetndg(int32 file_id, uint16 tag, uint16 ref, DFSsdg *sdg)
     DFSDIclear(sdg);
     if (tag == DFTAG_NDG)
         DFSDIclearNT(sdg);
+    /* DFSDIclear keeps the data tag/ref: forget the previous group's data element, this group may have none */
+    sdg->data.tag = 0;
+    sdg->data.ref = 0;
     Ismaxmin = 0;
     IsCal    = FALSE;
 
